@@ -23,11 +23,11 @@ def class_desc(draw, max_alpha=3, max_stats=3, allow_prefix=True, tier="quick", 
     pats = draw(
         st.lists(words(alphabet, min_size=1, max_size=maxlen), min_size=npat, max_size=npat, unique=True)
     )
-    if draw(st.integers(0, 39)) == 0:
-        pats = pats + [""]  # the degenerate pattern: every class is empty
     prefix = ""
     if allow_prefix and draw(st.integers(0, 5)) == 0:
         prefix = draw(words(alphabet, 0, 3))
+        if any(p in prefix for p in pats):
+            prefix = ""  # start classes are non-empty by construction (see DESIGN 3.2)
     nstats = draw(st.sampled_from([0, 0, 1, 1, 2, 2, 3][: 4 + max_stats]))
     nstats = max(min_stats, min(nstats, max_stats))
     stats = [
@@ -37,7 +37,10 @@ def class_desc(draw, max_alpha=3, max_stats=3, allow_prefix=True, tier="quick", 
     if nstats >= 2 and draw(st.integers(0, 3)) == 0:
         stats[1] = stats[0]  # duplicate sets make merges applicable
     pool = draw(st.integers(0, 1)) if nstats else 0
-    return [alphabet, prefix, sorted(pats), 0, stats, pool]
+    strict = int(draw(st.integers(0, 7)) == 0)
+    if strict and all(any(p in prefix + a for p in pats) for a in alphabet):
+        strict = 0
+    return [alphabet, prefix, sorted(pats), 0, stats, pool, strict]
 
 
 @st.composite
@@ -53,6 +56,18 @@ def expand_desc(draw, allow_skip=False):
         else:
             d["skip_prefixes"] = sorted(draw(st.sets(words("ab", 1, 3), min_size=1, max_size=3)))
     return ["Expand", d]
+
+
+@st.composite
+def split_desc(draw):
+    return [
+        "SplitAtom",
+        {
+            "atom_last": draw(st.booleans()),
+            "xf_atom": draw(st.sampled_from(XF)),
+            "xf_rest": draw(st.sampled_from(XF)),
+        },
+    ]
 
 
 @st.composite
@@ -128,8 +143,12 @@ def pack_desc(draw, has_stats=True, finite=False, atoms_only=False, allow_iterat
     for i in range(nsets):
         s = []
         for _ in range(draw(st.sampled_from([1, 1, 2]))):
-            r = draw(st.integers(0, 9))
-            if r <= 5:
+            r = draw(st.integers(0, 11))
+            if r >= 10:
+                s.append(draw(split_desc()))
+                s.append(draw(expand_desc(allow_skip=not finite)))
+                have_expand = True
+            elif r <= 5:
                 s.append(draw(expand_desc(allow_skip=not finite)))
                 have_expand = True
             elif r <= 6:
@@ -191,7 +210,7 @@ def reverse_template(draw, tier="quick"):
     pats = sorted(set([x + x] + extra))
     nstats = draw(st.sampled_from([0, 0, 1, 2]))
     stats = ["".join(sorted(set(draw(st.text(alphabet="abz", min_size=0, max_size=2))))) for _ in range(nstats)]
-    cls = ["ab", "", pats, 0, stats, 0]
+    cls = ["ab", "", pats, 0, stats, 0, 0]
     xf = draw(st.sampled_from(["id", "id", "dm", "rename"]))
     pack = {
         "initial": [],
